@@ -43,7 +43,7 @@ type batchModel struct {
 	In    map[string]batchIO
 	Out   map[string]int // output name -> batch axis
 	solo  map[int]map[string]*ref.T
-	Big   bool // sample 2 of the pool is 150 times larger than the others
+	Big   float64 // > 0: sample 2 of the pool is this many times larger than the others
 }
 
 // stack concatenates per-sample tensors (extent 1 on axis) along axis.
@@ -71,8 +71,8 @@ func (bm *batchModel) sample(name string, k int) *ref.T {
 		salt += int(c)
 	}
 	t := recFill(ref.F32, io.Shape, salt)
-	if bm.Big && k == 2 {
-		t = ref.Fill(ref.F32, io.Shape, func(i int) float64 { return t.F(i) * 150 })
+	if bm.Big > 0 && k == 2 {
+		t = ref.Fill(ref.F32, io.Shape, func(i int) float64 { return t.F(i) * bm.Big })
 	}
 	return t
 }
@@ -129,7 +129,7 @@ func (bm *batchModel) check(batch []int, pool int) *hx.Violation {
 			got := row(res.Outs[oi], ax, i)
 			want := soloRes.Outs[oi]
 			cmp := hx.Tol(1e-5, 1e-6)
-			if bm.Big {
+			if bm.Big > 0 {
 				cmp = hx.Tol(1e-5, 2e-4) // rounding of intermediate values of magnitude ~300 (ulp 3e-5)
 			}
 			if !got.DT.IsFloat() {
@@ -257,13 +257,15 @@ func batchModels(all bool) []*batchModel {
 	mkModel("Conv1D+bias", "x", []hx.DimSpec{N, fx(2), fx(5)}, batchIO{[]int{1, 2, 5}, 0}, nil, []*onnx.NodeProto{hx.Node("Conv", []string{"x", "K", "kb"}, []string{"y"}, []hx.Attr{hx.AInts("dilations", 2)})}, []*onnx.TensorProto{init("K", 2, 2, 2), init("kb", 2)}, map[string]int{"y": 0}, nil, nil)
 	// samples of very different magnitude in one batch (sample 2 is 150 times larger): Softmax slices are independent
 	for _, lg := range []string{"Softmax", "LogSoftmax"} {
-		mkModel(lg+"{axis=1}(N,3,2)/big-sample", "x", []hx.DimSpec{N, fx(3), fx(2)}, batchIO{[]int{1, 3, 2}, 0}, nil, []*onnx.NodeProto{hx.Node(lg, []string{"x"}, []string{"y"}, []hx.Attr{hx.AInt("axis", 1)})}, nil, map[string]int{"y": 0}, nil, nil)
-		out[len(out)-1].Big = true
-		mkModel(lg+"{-1}(N,3)/big-sample", "x", []hx.DimSpec{N, fx(3)}, batchIO{[]int{1, 3}, 0}, nil, []*onnx.NodeProto{hx.Node(lg, []string{"x"}, []string{"y"}, []hx.Attr{hx.AInt("axis", -1)})}, nil, map[string]int{"y": 0}, nil, nil)
-		out[len(out)-1].Big = true
+		for _, big := range []float64{150, 1e7} {
+			mkModel(fmt.Sprintf("%s{axis=1}(N,3,2)/big-sample-x%g", lg, big), "x", []hx.DimSpec{N, fx(3), fx(2)}, batchIO{[]int{1, 3, 2}, 0}, nil, []*onnx.NodeProto{hx.Node(lg, []string{"x"}, []string{"y"}, []hx.Attr{hx.AInt("axis", 1)})}, nil, map[string]int{"y": 0}, nil, nil)
+			out[len(out)-1].Big = big
+			mkModel(fmt.Sprintf("%s{-1}(N,3)/big-sample-x%g", lg, big), "x", []hx.DimSpec{N, fx(3)}, batchIO{[]int{1, 3}, 0}, nil, []*onnx.NodeProto{hx.Node(lg, []string{"x"}, []string{"y"}, []hx.Attr{hx.AInt("axis", -1)})}, nil, map[string]int{"y": 0}, nil, nil)
+			out[len(out)-1].Big = big
+		}
 	}
 	mkModel("Gemm+Tanh/big-sample", "x", []hx.DimSpec{N, fx(3)}, batchIO{[]int{1, 3}, 0}, nil, []*onnx.NodeProto{hx.Node("Gemm", []string{"x", "W", "b"}, []string{"h"}, nil), hx.Node("Tanh", []string{"h"}, []string{"y"}, nil)}, []*onnx.TensorProto{init("W", 3, 2), init("b", 2)}, map[string]int{"y": 0, "h": 0}, nil, nil)
-	out[len(out)-1].Big = true
+	out[len(out)-1].Big = 150
 	// LSTM with peephole weights (input 7), with and without initial states
 	{
 		inits := []*onnx.TensorProto{init("W", 1, 8, 3), init("R", 1, 8, 2), init("B", 1, 16), init("P", 1, 6)}
@@ -320,7 +322,7 @@ func checkC16(c *hx.Checker) {
 		pool, maxLen = 5, 5
 	}
 	models := batchModels(thorough)
-	c.Rule = fmt.Sprintf("%d models: sample models mlp, scaler, gru (thorough: + ndm); generated per-sample models (Gemm/MatMul against weights, mlp, elementwise + activations, PRelu, Softmax/LogSoftmax over a non-batch axis, Scaler, LinearRegressor, Gather/Slice/Concat/ArgMax/Reduce on a non-batch axis, Reshape(0,-1), Flatten, Unsqueeze/Squeeze, Expand, Cast), each also behind 4 batch-preserving first stages (Relu, Add-bias, Mul, Tanh) = all 1- and 2-stage combinations; Conv 1-D/2-D (batch axis 0); RNN/GRU/LSTM with and without initial states and with seq=1 (batch axis 1); the Transpose>GRU>Squeeze>Transpose wrapping; LSTM with peephole weights, GRU with linear_before_reset; Softmax/LogSoftmax (last and non-last axis) and Gemm+Tanh with one sample of the pool 150 times larger than the others. "+
+	c.Rule = fmt.Sprintf("%d models: sample models mlp, scaler, gru (thorough: + ndm); generated per-sample models (Gemm/MatMul against weights, mlp, elementwise + activations, PRelu, Softmax/LogSoftmax over a non-batch axis, Scaler, LinearRegressor, Gather/Slice/Concat/ArgMax/Reduce on a non-batch axis, Reshape(0,-1), Flatten, Unsqueeze/Squeeze, Expand, Cast), each also behind 4 batch-preserving first stages (Relu, Add-bias, Mul, Tanh) = all 1- and 2-stage combinations; Conv 1-D/2-D (batch axis 0); RNN/GRU/LSTM with and without initial states and with seq=1 (batch axis 1); the Transpose>GRU>Squeeze>Transpose wrapping; LSTM with peephole weights, GRU with linear_before_reset; Softmax/LogSoftmax (last and non-last axis) and Gemm+Tanh with one sample of the pool 150 times (Softmax/LogSoftmax also 1e7 times) larger than the others. "+
 		"per model: sample pool of %d distinct samples; EVERY batch = every sequence over the pool of length 1..%d (all permutations, sub-selections, repetitions, batch sizes). Oracle: position i of every batched output equals the output of evaluating that sample alone (N=1), rel 1e-5; non-trivial = batches of size >= 2", len(models), pool, maxLen)
 	c.Assumptions = []string{"'up to floating-point rounding': rel 1e-5 + abs 1e-6 (float32; abs 2e-4 for the models with a sample of magnitude ~150, whose intermediates have an ulp of 3e-5); the number of bit-identical cases is reported as an outcome class", "models are restricted to operators acting per sample along the batch axis, as in the statement"}
 	type job struct {
@@ -358,17 +360,15 @@ func checkC16(c *hx.Checker) {
 			sample = map[string]any{"model": j.bm.Name, "batch": j.batch}
 		}
 		tags := []string{"model=" + j.bm.Name, fmt.Sprintf("N=%d", len(j.batch))}
-		if j.bm.Big && j.batch[0] == 2 {
+		if j.bm.Big > 0 && strings.Contains(j.bm.Name, "{-1}") {
+			// gorgonia's last-axis Softmax kernel shifts every row by max(x[0], row[1:]), x[0] being the first
+			// element of the WHOLE batch tensor (KF-C09-1 / KF-C16-1): the same predicate as in C09 on the stacked input
+			var ts []*ref.T
 			for _, k := range j.batch {
-				if k != 2 {
-					tags = append(tags, "big-sample-first-with-others")
-					if strings.Contains(j.bm.Name, "{-1}") {
-						// gorgonia's last-axis Softmax kernel shifts every row by max(x[0], row[1:]), x[0] being the
-						// first element of the WHOLE tensor, i.e. of the first sample of the batch (KF-C09-1 / KF-C16-1)
-						tags = append(tags, "lastaxis-softmax-big-sample-first")
-					}
-					break
-				}
+				ts = append(ts, j.bm.sample("x", k))
+			}
+			if smShortcutOff(stack(ts, 0), 3) {
+				tags = append(tags, "lastaxis-max-shortcut-off")
 			}
 		}
 		c.Case(hx.CaseInfo{ID: fmt.Sprintf("%s/batch%v", j.bm.Name, j.batch), Tags: tags, NonTrivial: len(j.batch) >= 2, Sample: sample},
